@@ -146,7 +146,7 @@ var restoreCmd = &cobra.Command{
 					return fmt.Errorf("fail to get arg abs path: %w", err)
 				}
 				f, err := os.Stat(argAbsPath)
-				if os.IsNotExist(err) { // even if the file is not found, the file might be the deleted file
+				if err != nil { // even if the file is not found, the file might be the deleted file
 					// get node
 					cleanedArg := filepath.Clean(arg)
 					cleanedArg = strings.ReplaceAll(cleanedArg, `\`, "/")
@@ -220,7 +220,7 @@ var restoreCmd = &cobra.Command{
 					return fmt.Errorf("fail to get arg abs path: %w", err)
 				}
 				f, err := os.Stat(argAbsPath)
-				if os.IsNotExist(err) {
+				if err != nil {
 					// check if the arg is registered in the index
 					cleanedArg := filepath.Clean(arg)
 					cleanedArg = strings.ReplaceAll(cleanedArg, `\`, "/")
